@@ -181,7 +181,7 @@ Proof.
     match goal with |- ok_opt (omap _ (obind (fold_res ?F ?l ?s) _)) = _ =>
       pose proof (ks_respond_loop H cfg (r_version r) srep (r_cert_bytes r) t' F) as HL
     end.
-    specialize (HL ltac:(intros [[g0 sock0] st0] [idx [nonce src]]; reflexivity)).
+    specialize (HL ltac:(body_eq)).
     specialize (HL (r_requests r) 0%nat g sock st Hn Hg).
     unfold enumerate_n.
     destruct (fold_res _ (combine (map N.of_nat (seq 0 (length (r_requests r)))) (r_requests r)) (g, sock, st))
@@ -388,7 +388,7 @@ Proof.
   match goal with |- context [loop_fuel _ ?B _] =>
     pose proof (ks_drain_loop H ed_sign cfg srv clk B) as HL
   end.
-  specialize (HL ltac:(intros [[[[[[ri0 rc0] sock0] buf0] st0] coins0] k0]; reflexivity)).
+  specialize (HL ltac:(body_eq)).
   specialize (HL (S (length q)) ri rc q sent buf st coins k). unfold dstate in HL.
   match goal with |- context [loop_fuel ?f ?B ?s] => destruct (loop_fuel f B s) as [[[[[[[ri' rc'] sock'] buf'] st'] coins'] k']| |] end;
     cbn [obind omap ok_opt proj_d] in *; exact HL.
